@@ -14,7 +14,7 @@
 From Coq Require Import ZArith Bool List Lia.
 From Lal Require Import Common.LBytes Hls.HlsFloat Hls.HlsFs Hls.HlsPlaylist Hls.HlsParse Hls.HlsMuxer Hls.HlsConsistent
   Hls.HlsInv Hls.HlsRunProofs Hls.HlsTraceProofs Hls.HlsFinalProofs Hls.HlsLossProofs Hls.HlsRecordProofs
-  Hls.HlsServer Hls.HlsServerProofs.
+  Hls.HlsInvProofs Hls.HlsServer Hls.HlsServerProofs.
 Open Scope Z_scope.
 
 (* At EVERY prefix of the operation sequence: the live playlist, if present, is a complete playlist (it parses
@@ -192,6 +192,48 @@ Theorem c10_server_inv_every_prefix : forall c sevs k,
   cfg_ok c -> wf_evs c Clean 0 (lower c sevs) -> live_ok c (apply_all [] (firstn k (srv_run c sevs))).
 Proof. intros c sevs k Hc Hw. rewrite srv_refines. now apply every_prefix_live_ok. Qed.
 Print Assumptions c10_server_inv_every_prefix.
+
+(* hls.enable / hls.enable_https are tested in three places (Group.startHlsIfNeeded, Group.stopHlsIfNeeded,
+   ServerManager.CleanupHlsIfNeeded).  For EVERY configuration in which a muxer is started, ending the input finalises
+   it: the group keeps no muxer, the calls made are exactly those of Muxer.Dispose (close_fragment .. true: the open
+   segment is closed, the playlist written with it listed and with the end marker - c10_dispose_finalises), and the
+   delayed cleanup is armed exactly when the cleanup mode says so. *)
+Theorem c10_stop_finalises : forall g c id m gen tm s,
+  hls_start_guard g = true ->
+  let r := srv_step true (hls_stop_guard g) (hls_cleanup_guard g) c (mksrv (Some (id, Some m)) gen tm) s SvStop in
+  live_mux (fst r) = None /\ snd r = snd (close_fragment c m s true) /\
+  sv_timers (fst r) = (tm ++ (if arms c then [id] else []))%list.
+Proof. exact stop_finalises. Qed.
+Print Assumptions c10_stop_finalises.
+
+Theorem c10_dispose_finalises : forall c m s m' ops,
+  Inv c m s -> m_opened m = true -> close_fragment c m s true = (m', ops) ->
+  m_opened m' = false /\ nclosed m' = nclosed m + 1 /\
+  fs_lookup PLive (apply_all s ops) = Some (mkfile (print_live (c_stream c) (live_playlist c m' true)) true).
+Proof.
+  intros c m s m' ops HI Ho E.
+  destruct (HlsInvProofs.close_ok c m s true m' ops HI Ho E) as (_ & _ & A & B & _ & _ & _ & C). auto.
+Qed.
+Print Assumptions c10_dispose_finalises.
+
+(* Every configuration that starts a muxer makes the calls of the default one (so all theorems above apply to it);
+   with both switches off no call is made at all. *)
+Theorem c10_switches_equivalent : forall g c sevs,
+  (hls_start_guard g = true -> srv_exec_sw g c sevs = srv_exec true c srv0 [] sevs) /\
+  (hls_start_guard g = false -> concat (srv_run_ev_sw g c sevs) = []).
+Proof. intros g c sevs. split; [apply srv_exec_sw_started|apply srv_exec_sw_off]. Qed.
+Print Assumptions c10_switches_equivalent.
+
+(* As shipped, CleanupHlsIfNeeded tested hls.enable alone: with hls on the https port only a muxer is started but its
+   cleanup is never armed (fixed in lal; hls_cleanup_guard models the fixed code).  And the stop guard of seed C16r5-2
+   (hls.enable alone) never disposes that muxer. *)
+Theorem c10_guards_orig_refuted :
+  (exists g, hls_start_guard g = true /\ hls_cleanup_guard_orig g = false) /\
+  (forall c id m gen tm s,
+     srv_step true (sw_http (mksw false true)) (hls_cleanup_guard (mksw false true)) c (mksrv (Some (id, Some m)) gen tm) s SvStop
+     = (mksrv (Some (id, Some m)) gen tm, [])).
+Proof. split; [exact cleanup_guard_orig_inconsistent|intros; reflexivity]. Qed.
+Print Assumptions c10_guards_orig_refuted.
 
 (* The design in which the fired closure consults the Group object it found when the timer was ARMED (seeded change
    C10r2-2) is refuted: publish, stop, tick (that group is erased), publish (fresh group), fire removes the directory
